@@ -627,7 +627,7 @@ func histSummary(h c15hist) string {
 }
 
 func unitC15(e common.Env, p *common.Part) {
-	p.Rule = "histories (receive bursts, first Sends, epoch ticks, GC-driving Sends) on a real msg.Box with MaxInFlightTopicsBySender 2..5 and a virtual epoch clock, compared step by step with a reference model written from the statement (must-deliver / must-not-deliver / either); distinct key = history content hash; non-trivial when the history exceeds a limit, contains an expiry or churns more than limit+1 topics"
+	p.Rule = "histories (receive bursts, first Sends, epoch ticks, GC-driving Sends) on a real msg.Box with MaxInFlightTopicsBySender 2..5 and a virtual epoch clock, compared step by step with a reference model written from the statement (must-deliver / must-not-deliver / either); plus excess traffic (over the per-topic and the topic limit) on topics of 0..40 bytes, which must be dropped without failing the call (a panic kills the child and is reported by the parent) and leave the box serving; distinct key = history content hash; non-trivial when the history exceeds a limit, contains an expiry or churns more than limit+1 topics"
 	p.Assumptions = append(p.Assumptions, "the per-sender per-topic limit is the constant 100 of msgbox.go; bands: limit..limit+1 and expired-but-not-yet-swept are 'either'; expiry is judged only after three GC-driving Sends spaced by more than the expiry")
 	var hists []c15hist
 	for L := 2; L <= 5; L++ {
@@ -645,6 +645,51 @@ func unitC15(e common.Env, p *common.Part) {
 	n := e.Pick(300, 6000)
 	for i := 0; i < n; i++ {
 		hists = append(hists, c15random(e.Rng("c15", i), i))
+	}
+	// excess traffic on topics of every length (the topic of a received message is whatever the peer sent: 0..40 bytes): the
+	// excess must be dropped, never make the call fail, and the box must go on serving afterwards
+	if e.Mine(0) {
+		for _, tl := range []int{0, 1, 2, 3, 4, 5, 7, 8, 16, 31, 32, 33, 40} {
+			key := fmt.Sprintf("excess traffic on %d-byte topics", tl)
+			p.Begin(key)
+			h := &recHandler{}
+			b := &msg.Box{Logger: common.Nolog{}, MaxInFlightTopicsBySender: 2, GCSweep: time.Hour, GCExpire: 10 * time.Hour, NewTicker: time.NewTicker,
+				ForwardSend: func(uint8, []byte, []byte, ...tss.UniversalID) {}, MessageHandler: h}
+			mkTopic := func(k int) []byte {
+				t := make([]byte, tl)
+				for i := range t {
+					t[i] = byte(k*31 + i)
+				}
+				return t
+			}
+			done := make(chan struct{})
+			go func() {
+				defer close(done)
+				// over the per-topic limit on one topic
+				for k := 0; k < perTopicLimit+8; k++ {
+					b.HandleMessage(&tss.IncMessage{MsgType: uint8(tss.MsgTypeMPC), Topic: mkTopic(1), Source: 7, Data: []byte{byte(k)}})
+				}
+				// over the topic limit (only distinguishable topics exist for lengths >= 1)
+				for k := 2; k < 9; k++ {
+					b.HandleMessage(&tss.IncMessage{MsgType: uint8(tss.MsgTypeMPC), Topic: mkTopic(k), Source: 7, Data: []byte("x")})
+				}
+				// another sender is still served, on a 32-byte topic
+				b.HandleMessage(&tss.IncMessage{MsgType: uint8(tss.MsgTypeMPC), Topic: topic32("after-excess"), Source: 8, Data: []byte("probe")})
+				b.Send(uint8(tss.MsgTypeMPC), topic32("after-excess"), []byte("out"), 9)
+			}()
+			select {
+			case <-done:
+				got := h.take()
+				if len(got) != 1 || string(got[0].Data) != "probe" {
+					p.Violate("throttled-within-limits/after-excess-on-short-topics", fmt.Sprintf("%s: afterwards another sender's message on a fresh topic was not released (%d hand-overs)", key, len(got)), nil)
+				}
+			case <-time.After(20 * time.Second):
+				p.Violate("stuck/after-excess-on-short-topics", key+": the box did not return from HandleMessage / Send within 20 s", nil)
+			}
+			b.Stop()
+			p.Case(key, true)
+			p.Count("excess_topic_lengths", 1)
+		}
 	}
 	for i, h := range hists {
 		if !e.Mine(i) || p.ViolationCount() >= 3 {
